@@ -440,11 +440,16 @@ func c13mutate(c *Ctx) {
 				continue
 			}
 			a := cl.Common().Args
-			list := an.Path(a[1])
-			res := an.Path(a[2])
-			for _, f := range []string{"Requests", "Limits", "Overhead"} {
-				if strings.HasSuffix(list, "."+f) {
-					got[f+"/"+strings.Trim(res, `"`)] = true
+			// an argument may be the element of a full scan over a slice literal (table-driven form)
+			for _, lv := range argAlts(a[1]) {
+				list := an.Path(lv)
+				for _, rv := range argAlts(a[2]) {
+					res := an.Path(rv)
+					for _, f := range []string{"Requests", "Limits", "Overhead"} {
+						if strings.HasSuffix(list, "."+f) {
+							got[f+"/"+strings.Trim(res, `"`)] = true
+						}
+					}
 				}
 			}
 		}
@@ -598,9 +603,10 @@ func c13shape(c *Ctx) {
 				f[z] = an.False
 			}
 			set(f, cmp, false) // Value()*1000 differs from MilliValue()
+			// an error is produced: a call that yields a *field.Error (appended to a list or put into a literal)
 			reach := an.Explore(fn, nil, f, func(in ssa.Instruction) bool {
 				call, isC := in.(*ssa.Call)
-				return isC && an.IsBuiltinCall(call, "append")
+				return isC && strings.HasSuffix(call.Type().String(), "util/validation/field.Error")
 			})
 			if len(reach.Returns()) > 0 {
 				ok = false
@@ -608,4 +614,33 @@ func c13shape(c *Ctx) {
 		}
 		r.Check(ok, "PATH", fkey(fn)+"/whole-cpus", c.Pos(fn.Pos()), "LSR/LSE pods must request whole CPUs", "for an LSR or LSE pod whose CPU request is not a whole number a return is reachable without an error being appended (or the test Value()*1000 != MilliValue() is missing)")
 	}
+}
+
+// argAlts: the values an argument can take when it is the element of a loop that visits every position of a slice
+// literal ("for _, x := range []T{a, b}"); otherwise the value itself.
+func argAlts(v ssa.Value) []ssa.Value {
+	self := []ssa.Value{v}
+	u, ok := v.(*ssa.UnOp)
+	if !ok || u.Op != token.MUL {
+		return self
+	}
+	ia, ok := u.X.(*ssa.IndexAddr)
+	if !ok {
+		return self
+	}
+	if _, _, full := fullScan(ia); !full {
+		return self
+	}
+	var out []ssa.Value
+	for _, src := range cellSources(ia.X) {
+		es := variadicElems(src)
+		if len(es) == 0 {
+			return self
+		}
+		out = append(out, es...)
+	}
+	if len(out) == 0 {
+		return self
+	}
+	return out
 }
